@@ -33,8 +33,31 @@ MATCHERS = {
 FIELD = {'asefile::parse::parse_pixel_format': 'depth', 'asefile::layer::parse_layer_type': 'type', 'asefile::layer::parse_blend_mode': 'blend',
          'asefile::cel::CelContent::parse': 'cel_type', 'asefile::tags::parse_animation_direction': 'dir',
          'asefile::color_profile::parse_color_profile_type': 'type', 'asefile::parse::parse_chunk_type': 'chunk_type'}
-CEL_VIA = {0: 'asefile::cel::parse_raw_cel', 2: 'asefile::cel::parse_compressed_cel',
-           3: 'asefile::tilemap::TilemapData::parse_chunk', 1: 'asefile::reader::AseReader::word'}
+PXR = 'asefile::pixel::RawPixels::'
+CEL_VIA = {0: PXR + 'from_raw', 2: PXR + 'from_compressed', 3: 'asefile::tilemap::TilemapData::parse_chunk', 1: 'asefile::reader::AseReader::word'}
+
+
+def cel_arm_source(fx, inner):
+    """what a `CelContent::X(payload)` arm of CelContent::parse decodes its payload with, seen through crate-local helpers (free
+    functions, associated functions, closures passed to Result::map): the callee that reads the payload, or None.
+    Image arms must be ImageContent{size: ImageSize::parse(reader), pixels: from_raw|from_compressed(reader, format, size.pixel_count())}"""
+    import layout
+    keep = (PXR + 'from_raw', PXR + 'from_compressed', 'asefile::tilemap::TilemapData::parse_chunk', 'asefile::cel::ImageSize::parse',
+            'asefile::cel::ImageSize::pixel_count')
+    e = q.expand(inner, fx, 3, layout.noinl(fx) + keep)
+    if e[0] != 'agg' or not e[3]:
+        return None
+    pl = e[3][0][1]
+    if pl[0] == 'call' and pl[1] in ('asefile::reader::AseReader::word', 'asefile::tilemap::TilemapData::parse_chunk') and is_param(pl[2][0], 1):
+        return pl[1]
+    if pl[0] == 'agg' and pl[2] == 'ImageContent':
+        f = dict(pl[3])
+        sz, px = f.get('size'), f.get('pixels')
+        if sz is not None and px is not None and sz[0] == 'call' and sz[1] == 'asefile::cel::ImageSize::parse' and is_param(sz[2][0], 1) and \
+                px[0] == 'call' and px[1] in (PXR + 'from_raw', PXR + 'from_compressed') and is_param(px[2][0], 1) and is_param(px[2][1], 2) and \
+                px[2][2][0] == 'call' and px[2][2][1] == 'asefile::cel::ImageSize::pixel_count' and px[2][2][2][0] == sz:
+            return px[1]
+    return None
 
 
 def variant_of(t):
@@ -206,6 +229,8 @@ def run(ctx):
             names = []
             for rt in arm['ret']:
                 for a in alts(rt):
+                    if q.is_err_term(a):
+                        continue          # the `?` of a read inside the arm: an error exit, not a decoded value
                     vn, inner = variant_of(a)
                     names.append((vn, inner))
             got[v] = names
@@ -217,9 +242,7 @@ def run(ctx):
             names = got[v]
             ok = len(names) == 1 and names[0][0] == table[v]
             if ok and fn.endswith('CelContent::parse'):
-                inner = names[0][1]
-                pl = dict(inner[3]).get('0')
-                ok = pl is not None and pl[0] == 'call' and pl[1] == CEL_VIA[v]
+                ok = cel_arm_source(fx, names[0][1]) == CEL_VIA[v]
             ctx.inst('T1', '%s#%s' % (fn, v), ok, 'value %s -> %s; expected %s%s'
                      % (v, [n for n, _ in names], table[v], ' via ' + CEL_VIA[v].split('::')[-1] if fn.endswith('CelContent::parse') else ''),
                      tb['span'], key='%s|T1|%s' % (fn, v))
